@@ -4,6 +4,7 @@ import (
 	"fmt"
 	"math/rand"
 	"reflect"
+	"sort"
 	"strings"
 
 	"verifharness/world"
@@ -131,6 +132,28 @@ func randTagFor(rng *rand.Rand, ft reflect.Type, sc *world.Scenario, mix TagMix)
 		}
 		return "wire", args
 	case 3:
+		if rng.Intn(3) == 0 {
+			// an absent name that looks familiar: the default (package/type) name of a type whose instances
+			// all carry custom names - nothing is registered under it
+			named, unnamed := map[int]bool{}, map[int]bool{}
+			for i := range sc.Nodes {
+				if sc.Nodes[i].Name == "" {
+					unnamed[sc.Nodes[i].Type] = true
+				} else {
+					named[sc.Nodes[i].Type] = true
+				}
+			}
+			var opts []string
+			for t := range named {
+				if !unnamed[t] {
+					opts = append(opts, world.Palette[t].DefaultName)
+				}
+			}
+			sort.Strings(opts)
+			if len(opts) > 0 {
+				return "wire", opts[rng.Intn(len(opts))] + args
+			}
+		}
 		return "wire", "absent-name-" + fmt.Sprint(rng.Intn(5)) + args
 	case 4:
 		if n, ok := nameOf(func(t reflect.Type) bool { return !t.AssignableTo(elem) }); ok {
